@@ -733,6 +733,7 @@ func C17(tier string) int {
 	pool2.Close()
 	// blocking opens (no timeout) under the controlled scheduler with virtual time
 	mpool := par.NewPool(Workers(), "worker", "mc")
+	mpool.Timeout = 30 * time.Minute
 	lockExecs := 0
 	for _, p := range []string{"rw-first", "ro-first"} {
 		t := mc.Explore(mpool, "lock", p, 2, false, false, start.Add(10*time.Minute))
